@@ -9,6 +9,9 @@ CONSTANTS
   MaxWrites = 2
   MaxStale = 1
   Eager = FALSE
+  Kinds = {"frame","frag"}
+  FragFormats = {"f1"}
+  DevCountFramesOnly = FALSE
 INVARIANTS TypeOK PropAccounted PropExact PropAllReceived PropStoppedQuiet
 PROPERTIES StepOnlyOrder StepSkipOnlyWhenFull StepNoCallbackAfterEnd
 CHECK_DEADLOCK FALSE
